@@ -5,6 +5,7 @@ stop rule, then Delete / DeleteMulti); the theorems are about those loops run on
 model, and use only the read theorems (`consume_ok`) and the invariant.
 -/
 import Klev.Proofs.HelpersOK
+import Klev.Proofs.FindByAgeMono
 import Klev.Proofs.TrimFind
 import Klev.Proofs.TrimsOK
 namespace Klev.C15
@@ -287,6 +288,33 @@ theorem finds_ok_reachable (oo : OpenOpts) (hrw : oo.opts.readonly = false) (ops
   obtain ⟨st, hst, _, hok, _⟩ := Klev.findBySize_ok _ hinv hmi sz
   exact ⟨st, hst, hok⟩
 
+/-- **"when message times never decrease with offset, none older left"** — the clause of FindByAge /
+TrimByAge that needs the time lookup to be right: with the invariants of the time index and
+non-decreasing live times, FindByAge selects a prefix, nothing newer than `t`, and *every* message
+older than `t`. -/
+theorem findByAge_mono (l : Log) (hinv : Inv l) (ht : TimesInv l) (hm : Spec.Monotone (abs l))
+    (hfab : FirstAtBase l) (t : Int) (offs : List Int)
+    (hr : (findByAge l t).2 = .ok offs) :
+    Spec.FindByAgeOK true (abs l) t (.ok offs) ∧
+    Inv (findByAge l t).1 ∧ abs (findByAge l t).1 = abs l :=
+  Klev.findByAge_mono l hinv ht hm hfab t offs hr
+
+/-- … unconditionally after any history from an empty directory whose publish times never decrease
+(with the time index configured). -/
+theorem findByAge_mono_run (oo : OpenOpts) (xs : List OpX) (hsame : SameParamsX oo.opts.params xs)
+    (hp : oo.opts.params.times = true) (hmono : PubMonoX 0 xs) (t : Int) :
+    ∀ l0, Log.open [] oo = .ok l0 → ∀ offs, (findByAge (runX l0 xs) t).2 = .ok offs →
+    Spec.FindByAgeOK true (abs (runX l0 xs)) t (.ok offs) ∧
+    Inv (findByAge (runX l0 xs) t).1 ∧ abs (findByAge (runX l0 xs) t).1 = abs (runX l0 xs) :=
+  Klev.findByAge_mono_run oo xs hsame hp hmono t
+
+/-- FindByAge does return, except on the empty log with the time index on (the documented case). -/
+theorem findByAge_mono_total (l : Log) (hinv : Inv l) (ht : TimesInv l)
+    (hm : Spec.Monotone (abs l)) (hfab : FirstAtBase l) (t : Int)
+    (hne : (abs l).live ≠ [] ∨ l.opts.params.times = false) :
+    Spec.FindByAgeOK true (abs l) t (findByAge l t).2 ∧ Inv (findByAge l t).1 ∧ abs (findByAge l t).1 = abs l :=
+  Klev.findByAge_mono_total l hinv ht hm hfab t hne
+
 end Klev.C15
 
 #print axioms Klev.C15.scan_visits_all
@@ -316,3 +344,6 @@ end Klev.C15
 #print axioms Klev.C15.trimByAge_any
 #print axioms Klev.C15.stat_reachable
 #print axioms Klev.C15.finds_ok_reachable
+#print axioms Klev.C15.findByAge_mono
+#print axioms Klev.C15.findByAge_mono_run
+#print axioms Klev.C15.findByAge_mono_total
